@@ -137,21 +137,21 @@ func helperImpliesVerified(f *ssa.Function) bool {
 	n := 0
 	core.Instrs(f, func(i ssa.Instruction) {
 		r, isRet := i.(*ssa.Return)
-		if !isRet || len(r.Results) != 1 {
+		if !isRet || len(res(r)) != 1 {
 			return
 		}
-		if v, isC := core.ConstInt(r.Results[0]); isC && v == 0 {
+		if v, isC := core.ConstInt(res(r)[0]); isC && v == 0 {
 			return // return false
 		}
 		n++
-		if v, isC := core.ConstInt(r.Results[0]); isC && v == 1 {
+		if v, isC := core.ConstInt(res(r)[0]); isC && v == 1 {
 			if !core.Dominated(r, fact) {
 				ok = false
 			}
 			return
 		}
 		// return <expr>: accept only if expr itself is the non-nil comparison
-		if b, isB := r.Results[0].(*ssa.BinOp); isB && b.Op == token.NEQ && (core.IsNilConst(b.Y) && isCrypt(b.X) || core.IsNilConst(b.X) && isCrypt(b.Y)) {
+		if b, isB := res(r)[0].(*ssa.BinOp); isB && b.Op == token.NEQ && (core.IsNilConst(b.Y) && isCrypt(b.X) || core.IsNilConst(b.X) && isCrypt(b.Y)) {
 			return
 		}
 		if !core.Dominated(r, fact) {
@@ -512,9 +512,9 @@ func sessionViaStaticGet(v ssa.Value, r ssa.Value) bool {
 func returnsOnly(f *ssa.Function, pred func(ssa.Value) bool) bool {
 	ok, n := true, 0
 	core.Instrs(f, func(i ssa.Instruction) {
-		if r, isR := i.(*ssa.Return); isR && len(r.Results) > 0 {
+		if r, isR := i.(*ssa.Return); isR && len(res(r)) > 0 {
 			n++
-			if !core.AllSources(r.Results[0], pred) {
+			if !core.AllSources(res(r)[0], pred) {
 				ok = false
 			}
 		}
